@@ -163,11 +163,15 @@ func genSysHistory(rng *proto.Rng) sysIn {
 		case 5:
 			run.FailInvRead = []int{rng.Intn(7)}
 		case 6:
-			if len(run.Objs) > 0 {
+			if len(run.Objs) > 0 && rng.Chance(1, 2) {
 				run.FailGet = []jid{proto.Pick(rng, run.Objs).ID}
 			} else {
 				run.FailGet = []jid{proto.Pick(rng, sysCatalogue[2:]).ID}
 			}
+		}
+		run.InvAlt = rng.Chance(1, 8)
+		if len(run.FailMut)+len(run.FailGet)+len(run.FailInvRead) > 0 {
+			run.FailCode = proto.Pick(rng, []int{0, 0, 403, 422})
 		}
 		switch rng.Intn(16) {
 		case 0:
@@ -226,6 +230,13 @@ func sysHandWritten() []sysIn {
 			{Kind: "destroy"}}},
 		// an object of the inventory disappears behind the library's back; the destroy that follows deletes everything that exists
 		{Pre: pre, Runs: []sysRun{{Kind: "apply", Objs: []sysObj{soA, soD}}, {Kind: "destroy", EnvDel: []jid{soD.ID}}}},
+		// the stored inventory object was created under another template name than the one the destroy comes with
+		{Pre: pre, Runs: []sysRun{{Kind: "apply", Objs: []sysObj{soA, soD}}, {Kind: "apply", Objs: []sysObj{soA}, InvAlt: true}, {Kind: "destroy", InvAlt: true}}},
+		{Pre: pre, Runs: []sysRun{{Kind: "apply", Objs: []sysObj{soA}, InvAlt: true}, {Kind: "destroy"}}},
+		// the planning-time read of a tracked dependent is refused (403): the run must stop, not go on without it
+		{Pre: pre, Runs: []sysRun{{Kind: "apply", Objs: []sysObj{soA, soB}},
+			{Kind: "destroy", FailGet: []jid{soB.ID}, FailCode: 403},
+			{Kind: "apply", Objs: []sysObj{soD}, FailGet: []jid{soB.ID}, FailCode: 403}}},
 		// m depends on a through its mutation annotation; later m's annotation gains an external source listed first (m becomes
 		// invalid) while a is dropped from the apply set: a must not be pruned while m (still live, still depending on it) is skipped
 		{Pre: pre, Runs: []sysRun{{Kind: "apply", Objs: []sysObj{soA, soM}},
